@@ -1286,6 +1286,8 @@ class PyFat(object):
                 FATDirectoryEntry.FAT_DIRECTORY_HEADER_SIZE,
                 erase=True)[0]
             self.bpb_header["BPB_RootClus"] = first_cluster
+            # The root directory cluster has to be marked as used on disk
+            self.flush_fat()
 
             # write backup
             backup_offset = self.bpb_header["BPB_BkBootSec"] * \
